@@ -59,9 +59,9 @@ func init() {
 			c.nW1, c.nW2, c.nW3, c.nCold = 160, 80, 600, 16
 		}
 		if tier == "thorough" {
-			c.nW1, c.nW2, c.nW3, c.nCold = 40000, 15000, 150000, 1500
+			c.nW1, c.nW2, c.nW3, c.nCold = 100000, 40000, 400000, 3000
 			if raceBuild {
-				c.nW1, c.nW2, c.nW3, c.nCold = 8000, 3000, 30000, 400
+				c.nW1, c.nW2, c.nW3, c.nCold = 20000, 8000, 80000, 800
 			}
 		}
 		c.st.Interleavings = map[uint64]bool{}
